@@ -31,7 +31,7 @@ type Case struct {
 	Salt    int    `json:"salt"`
 }
 
-var kinds = []string{"prodcons", "mutex-let", "mutex-global", "sync-instance", "defvar-defun", "printing", "exit-lock", "generic", "mutex-hash", "exit-lock-global"}
+var kinds = []string{"prodcons", "mutex-let", "mutex-global", "sync-instance", "defvar-defun", "printing", "exit-lock", "generic", "mutex-hash", "exit-lock-global", "range-close", "select"}
 
 func nCases(tier string) int {
 	if tier == "thorough" {
@@ -159,6 +159,38 @@ func program(c Case) (src string, warm string) {
 			fmt.Fprintf(&b, " (run (progn (do ((v (channel-pop ch) (channel-pop ch))) ((eq v 'stop)) (channel-push out (list %d v))) (channel-push done t)))\n", k)
 		}
 		fmt.Fprintf(&b, " (dotimes (i %d) (channel-pop done))\n (dotimes (i %d) (channel-push ch 'stop))\n (dotimes (i %d) (channel-pop done))\n", np, nc, nc)
+		fmt.Fprintf(&b, " (dotimes (i %d) (setq res (cons (channel-pop out) res)))\n (reverse res))", np*c.M)
+	case "range-close":
+		// consumers iterate with range until the channel is closed; the main
+		// routine closes it after every producer is done
+		nc := 1 + c.N/2
+		np := c.N - c.N/2
+		fmt.Fprintf(&b, "(let* ((ch (make-channel %d)) (out (make-channel %d)) (done (make-channel %d)) (res nil))\n", c.Cap, np*c.M+1, c.N+1)
+		for p := 0; p < np; p++ {
+			fmt.Fprintf(&b, " (run (progn (dotimes (i %d) (channel-push ch (+ %d i))) (channel-push done t)))\n", c.M, (p+1)*100000)
+		}
+		for k := 0; k < nc; k++ {
+			fmt.Fprintf(&b, " (run (progn (range (lambda (v) (channel-push out (list %d v))) ch) (channel-push done t)))\n", k)
+		}
+		fmt.Fprintf(&b, " (dotimes (i %d) (channel-pop done))\n (channel-close ch)\n (dotimes (i %d) (channel-pop done))\n", np, nc)
+		fmt.Fprintf(&b, " (dotimes (i %d) (setq res (cons (channel-pop out) res)))\n (reverse res))", np*c.M)
+	case "select":
+		// one consumer selects over one channel per producer; a producer ends its
+		// stream with the symbol stop
+		np := 2 + c.N%3
+		fmt.Fprintf(&b, "(let* ((out (make-channel %d)) (done (make-channel 2)) (res nil)", np*c.M+1)
+		for p := 0; p < np; p++ {
+			fmt.Fprintf(&b, " (c%d (make-channel %d))", p, c.Cap)
+		}
+		b.WriteString(")\n")
+		for p := 0; p < np; p++ {
+			fmt.Fprintf(&b, " (run (progn (dotimes (i %d) (channel-push c%d (+ %d i))) (channel-push c%d 'stop)))\n", c.M, p, (p+1)*100000, p)
+		}
+		b.WriteString(" (run (let ((stops 0)) (do () ((= stops " + fmt.Sprint(np) + ")) (select")
+		for p := 0; p < np; p++ {
+			fmt.Fprintf(&b, " (c%d v (if (eq v 'stop) (setq stops (1+ stops)) (channel-push out (list %d v))))", p, p)
+		}
+		b.WriteString(")) (channel-push done t)))\n (channel-pop done)\n")
 		fmt.Fprintf(&b, " (dotimes (i %d) (setq res (cons (channel-pop out) res)))\n (reverse res))", np*c.M)
 	case "mutex-let":
 		// the documented shape: a let variable updated under with-mutex-lock,
@@ -315,8 +347,11 @@ func exec(x *fw.Ctx, c Case) {
 		obs["result"] = shown
 	}
 	switch c.Kind {
-	case "prodcons":
+	case "prodcons", "range-close", "select":
 		np := c.N - c.N/2
+		if c.Kind == "select" {
+			np = 2 + c.N%3
+		}
 		l, _ := res.(slip.List)
 		seen := map[int64]int{}
 		lastPerConsProd := map[[2]int64]int64{}
@@ -472,7 +507,7 @@ func exec(x *fw.Ctx, c Case) {
 func init() {
 	fw.Register(fw.Spec[Case]{
 		ID: "C17",
-		Rule: "a case = workload kind (10 kinds: producers/consumers over channels, mutex-guarded let/global/hash counters with a read-yield-write body, synchronized instance, " +
+		Rule: "a case = workload kind (12 kinds: producers/consumers over channels, mutex-guarded let/global/hash counters with a read-yield-write body, synchronized instance, " +
 			"concurrent defvar/defun, concurrent printing, exits out of locked regions, generic calls during defmethod) x N<=8 routines x M<=200 ops x channel capacity x GOMAXPROCS {1,2,4,16} x " +
 			"schedule perturbation {off, random yield, random 10-200us sleep at VerifPoints and monitor calls} x cold/warm, run in a race-detector build; " +
 			"every case is non-trivial (>= 2 routines); distinct = distinct case JSON",
